@@ -397,7 +397,7 @@ func (g *FuncGen) evalIndex(n *Node, env *Env) (Val, error) {
 	switch u := x.Type.Underlying().(type) {
 	case *types.Slice:
 		em := g.elemMap(u.Elem())
-		return Val{fmt.Sprintf("(select (select %s (s_arr %s)) (+ (s_off %s) %s))", g.heapGet(env.heap, em.Name, em.Sort), x.Term, x.Term, i.Term), u.Elem()}, nil
+		return Val{fmt.Sprintf("(select (select %s (s_arr %s)) (sidx %s %s))", g.heapGet(env.heap, em.Name, em.Sort), x.Term, x.Term, i.Term), u.Elem()}, nil
 	case *types.Array:
 		return Val{fmt.Sprintf("(select %s %s)", x.Term, i.Term), u.Elem()}, nil
 	case *types.Map:
@@ -704,6 +704,15 @@ func (g *FuncGen) ensureSpecDefined(sf *SpecFunc) error {
 	rt, err := g.eng.resolveType(sf.RType, spkg)
 	if err != nil {
 		return fmt.Errorf("spec %s: %v", sf.Name, err)
+	}
+	if sf.Raw == "uninterpreted" {
+		var ss []string
+		for i := range sf.Params {
+			pt, _ := g.eng.resolveType(sf.PTypes[i], spkg)
+			ss = append(ss, g.w.SortOf(pt))
+		}
+		g.specDefs = append(g.specDefs, fmt.Sprintf("(declare-fun %s (%s) %s)", q(key), strings.Join(ss, " "), g.w.SortOf(rt)))
+		return nil
 	}
 	var body string
 	if sf.Raw != "" {
